@@ -2,7 +2,9 @@
 
 The C identifier of an import is `esc(module) ++ separator ++ esc(field)`; `esc` exists twice in c.c (`wasmCWriteFileEscaped`
 writes to a FILE, `wasmCWriteStringEscaped` to a StringBuilder).  Extracted as DATA, from BOTH copies (they must agree; anything
-outside the shape below raises ExtractFail = broken tie):
+outside the shape below raises ExtractFail = broken tie).  The routines are read on the normal form of tools/extract/cnorm.py: parameter
+and local names are free, temporaries (`c`, `wasUnderscore`, `escapeChar`) are substituted, literals go by value, and the walk over
+the name may be by pointer or by index:
 
     static const char escapeChar = '<E>';
     for (; *p != '\\0'; p++) {                       every byte of the name, in order
@@ -32,7 +34,6 @@ from gen_instantiate import strip_comments, function_body
 
 GEN_NAME = "Mangle"
 C = "w2c2/c.c"
-ATOMS = {"c!=escapeChar": "notEscapeChar", "isalnum((unsignedchar)c)": "alnum"}
 
 
 def nows(s):
@@ -59,40 +60,104 @@ def c_string(lit, where):
     return [ord(ch) for ch in m.group(1)]
 
 
-def parse_escaped(src, fname, kind):
-    """kind 'file' | 'string' -> dict(escapeChar, keep, doubled)"""
+def _map_node(nd, f):
+    """apply f to every text of a normal-form node"""
+    def fc(c):
+        if isinstance(c, tuple):
+            return (c[0], tuple((fc(x), p) for x, p in c[1])) if c[0] in ("or", "and") else (c[0], fc(c[1]))
+        return f(c)
+    k = nd[0]
+    if k in ("do", "return"):
+        return (k, f(nd[1]))
+    if k == "if":
+        return ("if", fc(nd[1]), [_map_node(x, f) for x in nd[2]], [_map_node(x, f) for x in nd[3]])
+    if k == "while":
+        return ("while", fc(nd[1]), [_map_node(x, f) for x in nd[2]])
+    return nd
+
+
+def _normal(src, fname):
+    """normal form (cnorm) of `fname` with its parameters renamed by position to P0_, P1_, …"""
+    import cnorm
+    import gen_alloc
     body, line = function_body(src, fname, C)
     where = "%s:%d (%s)" % (C, line, fname)
-    t = nows(body)
-    if kind == "file":
-        W_DOUBLED = r'fputs\(("[^"]*"),file\);'
-        W_C = r"fputc\(c,file\);"
-        W_HEX = r'fprintf\(file,"%c%02X",escapeChar,\(unsignedchar\)c\);'
-        tail = r"\}"
-    else:
-        W_DOUBLED = r'MUST\(stringBuilderAppend\(builder,("[^"]*")\)\)'
-        W_C = r"MUST\(stringBuilderAppendChar\(builder,c\)\)"
-        W_HEX = r"MUST\(stringBuilderAppendChar\(builder,escapeChar\)\)MUST\(stringBuilderAppendCharHex\(builder,c\)\)"
-        tail = r"\}returntrue;"
-    rx = (r"staticconstcharescapeChar=('(?:\\.|[^'\\])');constchar\*p=name;for\(;\*p!='\\0';p\+\+\)\{constcharc=\*p;"
-          r"if\(c==('(?:\\.|[^'\\])')\)\{constboolwasUnderscore=p!=name&&\*\(p-1\)==('(?:\\.|[^'\\])');"
-          r"if\(wasUnderscore\)\{" + W_DOUBLED + r"\}else\{" + W_C + r"\}"
-          r"\}elseif\((.*?)\)\{" + W_C + r"\}else\{" + W_HEX + r"\}" + tail)
-    m = re.fullmatch(rx, t)
+    names = gen_alloc.params_of(src, fname, where)
+    return cnorm.normalize(gen_alloc.rename_params(body, names), where), where
+
+
+def parse_escaped(src, fname, kind):
+    """kind 'file' | 'string' -> dict(escapeChar, keep, doubled).  Read on the normal form: the walk over the bytes of the name may be a
+    pointer walk (`p = name; *p != 0; p++`, current byte `*p`, previous `*(p-1)`, not-first `p != name`) or an index walk (`k = 0;
+    name[k] != 0; k++`, `name[k]`, `name[k-1]`, `k != 0`); local and parameter names are free, temporaries substituted, literals by value"""
+    nodes, where = _normal(src, fname)
+    if kind == "string":
+        if not nodes or nodes[-1] != ("return", "true"):
+            raise ExtractFail(where, "the routine does not end in `return true`")
+        nodes = nodes[:-1]
+    if len(nodes) != 2 or nodes[0][0] != "do" or nodes[1][0] != "while":
+        raise ExtractFail(where, "the escaping routine is not one walk over the name")
+    m = re.fullmatch(r"(\$v\d+)=(P1_|0)", nodes[0][1])
     if not m:
+        raise ExtractFail(where, "the walk does not start at the first byte of the name: %s" % nodes[0][1])
+    v = m.group(1)
+    if m.group(2) == "P1_":
+        cur, prev, head = ["(*%s)" % v, "*%s" % v], "*(%s-1)" % v, [("%s==P1_" % v, False)]
+    else:
+        cur, prev, head = ["P1_[%s]" % v], "P1_[%s-1]" % v, [(v, True), ("0<" + v, True)]
+    if nodes[1][1] != cur[-1] or not nodes[1][2] or nodes[1][2][-1] != ("do", v + "+=1"):
+        raise ExtractFail(where, "the walk does not visit every byte up to the terminating NUL, one at a time")
+
+    def canon(t):
+        t = t.replace(prev, "PREV")
+        for c_ in cur:
+            t = t.replace(c_, "c")
+        return t
+    body = [_map_node(x, canon) for x in nodes[1][2][:-1]]
+    if kind == "file":
+        w_c = [("do", "fputc(c,P0_)")]
+        doubled_rx = r'fputs\(("[^"]*"),P0_\)'
+        hex_rx = [r'fprintf\(P0_,"%c%02X",(\d+),\(unsigned char\)c\)']
+    else:
+        w_c = [("do", "MUST(stringBuilderAppendChar(P0_,c))")]
+        doubled_rx = r'MUST\(stringBuilderAppend\(P0_,("[^"]*")\)\)'
+        hex_rx = [r"MUST\(stringBuilderAppendChar\(P0_,(\d+)\)\)", r"MUST\(stringBuilderAppendCharHex\(P0_,c\)\)"]
+    if len(body) != 1 or body[0][0] != "if":
         raise ExtractFail(where, "the escaping loop has an unexpected shape")
-    esc = c_char(m.group(1), where)
-    us1, us2 = c_char(m.group(2), where), c_char(m.group(3), where)
+    _, c_us, us_then, rest = body[0]
+    mu = re.fullmatch(r"c==(\d+)", c_us) if isinstance(c_us, str) else None
+    if not mu or len(us_then) != 1 or us_then[0][0] != "if" or len(rest) != 1 or rest[0][0] != "if":
+        raise ExtractFail(where, "the escaping loop has an unexpected shape")
+    us1 = int(mu.group(1))
+    _, c_was, dbl, single = us_then[0]
+    ok = isinstance(c_was, tuple) and c_was[0] == "and" and len(c_was[1]) == 2 and c_was[1][0] in head
+    mp = re.fullmatch(r"PREV==(\d+)", c_was[1][1][0]) if ok and c_was[1][1][1] and isinstance(c_was[1][1][0], str) else None
+    if not mp:
+        raise ExtractFail(where, "the test for a preceding underscore has an unexpected shape: %r" % (c_was,))
+    us2 = int(mp.group(1))
     if us1 != us2:
         raise ExtractFail(where, "the doubled character (%r) is not the one tested for repetition (%r)" % (us1, us2))
+    md = re.fullmatch(doubled_rx, dbl[0][1]) if len(dbl) == 1 and dbl[0][0] == "do" else None
+    if not md or single != w_c:
+        raise ExtractFail(where, "an underscore is not written as the doubled text after an underscore / as itself otherwise")
+    _, c_keep, kept, escd = rest[0]
+    if kept != w_c or len(escd) != len(hex_rx) or any(x[0] != "do" for x in escd):
+        raise ExtractFail(where, "kept bytes are not written as themselves / escaped bytes not as escapeChar + %02X")
+    mh = [re.fullmatch(rx, x[1]) for rx, x in zip(hex_rx, escd)]
+    if not all(mh):
+        raise ExtractFail(where, "escaped bytes are not written as escapeChar followed by %%02X of (unsigned char) c: %r" % (escd,))
+    esc = int(mh[0].group(1))
     keep = []
-    for part in m.group(5).split("&&"):
-        if part not in ATOMS:
-            raise ExtractFail(where, "unknown atom `%s` in the keep condition" % part)
-        keep.append(ATOMS[part])
+    for x, pos in (c_keep[1] if isinstance(c_keep, tuple) and c_keep[0] == "and" else ((c_keep, True),)):
+        if (x, pos) == ("c==%d" % esc, False):
+            keep.append("notEscapeChar")
+        elif (x, pos) == ("isalnum((unsigned char)c)", True):
+            keep.append("alnum")
+        else:
+            raise ExtractFail(where, "unknown atom %r in the keep condition" % ((x, pos),))
     if len(set(keep)) != len(keep):
         raise ExtractFail(where, "atom repeated in the keep condition")
-    return {"escapeChar": esc, "underscore": us1, "keep": keep, "doubled": c_string(m.group(4), where)}
+    return {"escapeChar": esc, "underscore": us1, "keep": keep, "doubled": c_string(md.group(1), where)}
 
 
 def check_hex_appender(repo):
@@ -103,33 +168,36 @@ def check_hex_appender(repo):
         raise ExtractFail("w2c2/stringbuilder.c:%d" % line, "stringBuilderAppendCharHex is no longer `%02X` of (unsigned char) value")
 
 
-LEAD_ATOMS = {"isdigit((unsignedchar)module[0])": "digit"}
-
-
 def module_wrapper(src, fname, kind, escape_char):
     """`wasmCWrite{File,String}EscapedModule` if it exists: [atoms] — disjunction of the conditions on module[0] under which that first
     byte is written as escapeChar + %02X before the REST of the name goes through the escaping routine (as a fresh name); None when
-    the function does not exist (the module part is written by the escaping routine directly)"""
+    the function does not exist (the module part is written by the escaping routine directly).  Read on the normal form."""
     if not re.search(r"^%s\(" % re.escape(fname), src, re.M):
         return None
-    body, line = function_body(src, fname, C)
-    where = "%s:%d (%s)" % (C, line, fname)
-    t = nows(body)
+    nodes, where = _normal(src, fname)
     if kind == "file":
-        rx = (r"if\((.*?)\)\{fprintf\(file,\"(.)%02X\",\(unsignedchar\)module\[0\]\);module\+\+;\}wasmCWriteFileEscaped\(file,module\);")
+        first = [r'fprintf\(P0_,"(.)%02X",\(unsigned char\)P1_\[0\]\)']
+        rest = ("do", "wasmCWriteFileEscaped(P0_,P1_)")
     else:
-        rx = (r"if\((.*?)\)\{MUST\(stringBuilderAppendChar\(builder,'(.)'\)\)MUST\(stringBuilderAppendCharHex\(builder,module\[0\]\)\)module\+\+;\}"
-              r"returnwasmCWriteStringEscaped\(builder,module\);")
-    m = re.fullmatch(rx, t)
-    if not m:
+        first = [r"MUST\(stringBuilderAppendChar\(P0_,(\d+)\)\)", r"MUST\(stringBuilderAppendCharHex\(P0_,P1_\[0\]\)\)"]
+        rest = ("return", "wasmCWriteStringEscaped(P0_,P1_)")
+    if len(nodes) != 2 or nodes[0][0] != "if" or nodes[0][3] or nodes[1] != rest:
         raise ExtractFail(where, "the module-name wrapper has an unexpected shape")
-    if ord(m.group(2)) != escape_char:
-        raise ExtractFail(where, "the wrapper escapes with %r, the escaping routine with %r" % (m.group(2), chr(escape_char)))
+    then = nodes[0][2]
+    if len(then) != len(first) + 1 or then[-1] != ("do", "P1_+=1") or any(x[0] != "do" for x in then):
+        raise ExtractFail(where, "the module-name wrapper has an unexpected shape")
+    ms = [re.fullmatch(rx, x[1]) for rx, x in zip(first, then)]
+    if not all(ms):
+        raise ExtractFail(where, "the first byte is not written as escapeChar followed by %02X of (unsigned char) module[0]")
+    e = ord(ms[0].group(1)) if kind == "file" else int(ms[0].group(1))
+    if e != escape_char:
+        raise ExtractFail(where, "the wrapper escapes with %r, the escaping routine with %r" % (chr(e), chr(escape_char)))
+    c = nodes[0][1]
     atoms = []
-    for part in m.group(1).split("||"):
-        if part not in LEAD_ATOMS:
-            raise ExtractFail(where, "unknown condition `%s` on the first byte of the module name" % part)
-        atoms.append(LEAD_ATOMS[part])
+    for x, pos in (c[1] if isinstance(c, tuple) and c[0] == "or" else ((c, True),)):
+        if (x, pos) != ("isdigit((unsigned char)P1_[0])", True):
+            raise ExtractFail(where, "unknown condition %r on the first byte of the module name" % ((x, pos),))
+        atoms.append("digit")
     return atoms
 
 
